@@ -17,16 +17,38 @@ GATES = ["Sgate", "BSgate", "Dgate", "Vac", "Rgate", "MeasureX", "MeasureFock", 
 def gen_circuit_text(rng, maxops, nmodes=8):
     """a script of operations over a few modes, some arguments depending on measured registers"""
     lines = []
+    # modes may be written as arithmetic or as elements of an integer array (they then reach the operation as
+    # NumPy integers), and a register may reach an argument through a variable
+    use_arr = rng.random() < 0.3
+    if use_arr:
+        lines.append("int array M_ =\n    " + ", ".join(str(m) for m in range(nmodes)))
+    regvars = []
+
+    def spell(m):
+        r = rng.random()
+        if use_arr and r < 0.3:
+            return "M_[%d]" % m
+        if r < 0.45:
+            return rng.choice(["%d+%d" % (m - 1, 1), "%d-1" % (m + 1), "2*%d-%d" % (m, m)]) if m >= 1 else "1-1"
+        return str(m)
+
     for _ in range(rng.randrange(1, maxops + 1)):
         k = rng.choice([1, 1, 2, 2, 3])
         modes = rng.sample(range(nmodes), min(k, nmodes))
         r = rng.random()
+        if rng.random() < 0.12:
+            q = rng.randrange(nmodes + 2)
+            v = "g%d_" % len(regvars)
+            lines.append("float %s = %s" % (v, rng.choice(["2*q%d", "q%d + 0.5", "q%d"]) % q))
+            regvars.append(v)
         if r < 0.3:
             args = ""
         else:
             parts = []
             for _ in range(rng.choice([1, 1, 2])):
-                if rng.random() < 0.3:
+                if regvars and rng.random() < 0.25:
+                    parts.append(rng.choice([rng.choice(regvars), "0.5*" + rng.choice(regvars)]))
+                elif rng.random() < 0.3:
                     regs = rng.sample(range(nmodes + 2), rng.choice([1, 1, 2]))
                     # q01 is register 1 as much as q1 is (one spelling per register here: two spellings of one
                     # register in a single expression are two SymPy symbols)
@@ -38,7 +60,7 @@ def gen_circuit_text(rng, maxops, nmodes=8):
                 regs = [("0" * rng.choice([0, 0, 1]) + str(q)) for q in rng.sample(range(nmodes + 2), 1)]
                 parts.append("phi=" + gen.r_expr(gen.gen_symexpr(rng, [("reg", q) for q in regs], 1, None), gen.Layout()))
             args = "(" + ", ".join(parts) + ")"
-        ms = ", ".join(str(m) for m in modes)
+        ms = ", ".join(spell(m) for m in modes)
         lines.append("%s%s | %s" % (rng.choice(GATES), args, ms if len(modes) == 1 else "[" + ms + "]"))
     return "name c\nversion 1.0\n\n" + "\n".join(lines) + "\n"
 
@@ -46,9 +68,14 @@ def gen_circuit_text(rng, maxops, nmodes=8):
 def wires_of(op):
     from blackbird.listener import RegRefTransform
     w = set(int(m) for m in op["modes"])
+    import re as _re
+    import sympy as _sym
     for a in list(op.get("args", [])) + list(op.get("kwargs", {}).values()):
         if isinstance(a, RegRefTransform):
             w |= set(a.regrefs)
+        elif isinstance(a, _sym.Expr):
+            # a symbolic argument that mentions a measured register depends on it, however it was delivered
+            w |= {int(str(x)[1:]) for x in a.free_symbols if _re.fullmatch(r"q\d+", str(x))}
     return w
 
 
@@ -193,7 +220,7 @@ def graph_corr(ctx, texts):
 def run(ctx):
     ctx.rule = ("random programs of up to 40 (quick) / 200 (thorough) operations over 8 modes: operations without "
                 "arguments, multi-mode operations, arguments depending on measured registers in positional and "
-                "keyword position; oracle: one node per operation with its name/args/modes, all edges forward, "
+                "keyword position, also through variables declared from a register expression; modes written as literals, as arithmetic and as elements of an integer array; oracle: one node per operation with its name/args/modes, all edges forward, "
                 "acyclic, networkx reachability equals the independently computed chain relation, three random "
                 "topological orders keep every wire's order; model graph vs to_DiGraph; non-trivial = at least 4 "
                 "operations and one shared wire; distinct by text")
